@@ -527,7 +527,8 @@ def opParse (prop : String) (j : Json) (extra : ParseCtx → Verdict → R Verdi
   if outcome ≠ "ok" then
     -- the implementation panicked: does the model say so too?
     let modelPanics := model.any fun (_, r) => match r with | .error _ => true | .ok _ => false
-    return { corr := [("outcome", modelPanics), ("parse", modelPanics)],
+    -- whatever the model says, a panic of add_content / validate is a violation of C01
+    return { corr := [("outcome", modelPanics), ("parse", modelPanics)], spec := [("C01", false)],
              detail := [("impl_outcome", Json.str outcome), ("impl_msg", (impl.getObjVal? "msg").toOption.getD .null)] }
   let stage1 ← list fileResult (← fld impl "stage1")
   let out ← list fileResult (← fld impl "out")
